@@ -211,6 +211,38 @@ def _has_set(v: Any) -> bool:
     return False
 
 
+def _inject_instances(u: Any, T: dict, data: Any, v: dict, depth: int = 0) -> Any:
+    """The datum with every sub-datum whose predicted image is a dataclass INSTANCE replaced by that instance, at the
+    positions reached through unions / Optional, lists and mapping values (not inside objects: pass_through is about
+    the types named at the call).  Returns (datum, replaced?)."""
+    k = T.get("k")
+    if k == "annot":
+        # constraints apply to JSON data (a discriminated union reads its key in a JSON object): not a pass-through position
+        return (data, False) if T.get("cons") else _inject_instances(u, T["t"], data, v, depth)
+    if k == "newtype":
+        return _inject_instances(u, T["sup"], data, v, depth)
+    if v.get("k") == "inst" and k == "obj":
+        if u.classes[v["cls"]]["kind"] == "dataclass":
+            return u.ctx.dec_value(v), True
+        return data, False
+    if k == "union":
+        for alt in T["alts"]:
+            d2, hit = _inject_instances(u, alt, data, v, depth)
+            if hit:
+                return d2, True
+        return data, False
+    if k == "coll" and T.get("c") == "list" and v.get("k") == "list" and isinstance(data, list) and len(data) == len(v["a"]):
+        outs = [_inject_instances(u, T["e"], x, w, depth + 1) for x, w in zip(data, v["a"])]
+        return [o[0] for o in outs], any(o[1] for o in outs)
+    if k == "map" and v.get("k") == "dict" and isinstance(data, dict) and len(data) == len(v["o"]) and T["kt"].get("p") == "str":
+        vals = {kv[0]["s"]: kv[1] for kv in v["o"] if kv[0].get("k") == "str"}
+        if set(vals) != set(data):
+            return data, False
+        outs = {key: _inject_instances(u, T["vt"], x, vals[key], depth + 1) for key, x in data.items()}
+        return {key: o[0] for key, o in outs.items()}, any(o[1] for o in outs.values())
+    return data, False
+
+
 def deser_variants(rep: common.Report, tiers: List[str]) -> int:
     """Deserialization side: no_copy, override_dataclass_constructors, precomputed method,
     pass_through of a type.  Outcomes (values and errors) must all equal the prediction."""
@@ -265,6 +297,25 @@ def deser_variants(rep: common.Report, tiers: List[str]) -> int:
                             rep.violation(f"[shares] no_copy=False but the result shares a mutable container with the input "
                                           f"({label}): {bridge.type_expr(c['type'])} <- {json.dumps(bridge.dec_data(c['data']))[:200]}",
                                           {"type": bridge.type_expr(c["type"]), "data": c["data"], "options": label})
+                # pass_through with data already holding INSTANCES of the passed-through classes (where the prediction
+                # is an instance): the instance is let through as it is, whatever the strategy of the enclosing union
+                # or container -- the outcome is the predicted one
+                if c["expect"].get("ok") and c["expect"]["v"].get("k") != "unspecified":
+                    try:
+                        data2, hit = _inject_instances(u, c["type"], bridge.dec_data(c["data"]), c["expect"]["v"])
+                    except Exception:
+                        hit = False
+                    if hit:
+                        for no_copy in (False, True):
+                            kw = dict(base_kw, no_copy=no_copy, pass_through=all_dc)
+                            out = record.run_deserialize(u.ctx, tp, data2, kw)
+                            n += 1
+                            vd = compare.deser_verdict(c["expect"], out, c.get("ambig", False), dups_ok=dups)
+                            if vd != "ok":
+                                label = f"no_copy={no_copy} override_dataclass_constructors={odc} pass_through=all dataclasses, instances in the data"
+                                rep.violation(f"[{vd}] under {label}: {bridge.type_expr(c['type'])} <- {data2!r}"[:600],
+                                              {"type": bridge.type_expr(c["type"]), "data": c["data"], "options": label, "expected": c["expect"],
+                                               "actual": {k: out.get(k) for k in ("kind", "v", "errs", "exc")}})
         settings.deserialization.override_dataclass_constructors = False
         bridge.cleanup_gen_dir()
     return n
